@@ -1,4 +1,4 @@
-import StepModel.InstMgrRefine
+import StepModel.InstMgrHistory
 /-!
 # C13 — the instance manager stays consistent under any sequence of operations
 
@@ -30,6 +30,24 @@ theorem C13_refines (ops : List Op) (op : Op) :
     abs (step (run init ops) op).1 =
       specStep (abs (run init ops)) (fun h => ((run init ops).heap h).isSome) op :=
   abs_step (C13_inv_reachable ops) op
+
+/-- **History-level refinement.**  After ANY history the manager's array of live instances (handle and editing
+state, in array order) and the set of allocated instances equal what the reference `Ref` — a plain list plus a
+set, with no ids, map, cached indices or buffer — computes from the same history.  Hence the count is the number of
+live instances and the i-th instance is the i-th survivor in insertion order. -/
+theorem C13_refines_history (ops : List Op) :
+    abs (run init ops) = (Ref.init.run ops).live ∧
+    ∀ k, ((run init ops).heap k).isSome = (Ref.init.run ops).alive k :=
+  rel_run inv_init rel_init ops
+
+theorem C13_count_eq_ref (ops : List Op) : count (run init ops) = (Ref.init.run ops).live.length := by
+  rw [← (C13_refines_history ops).1]; simp [count, abs]
+
+theorem C13_instAt_eq_ref (ops : List Op) (i : Nat) :
+    instAt (run init ops) i = ((Ref.init.run ops).live[i]?).map (·.1) := by
+  rw [← (C13_refines_history ops).1]
+  simp only [instAt, abs, List.getElem?_map]
+  cases (run init ops).nodes[i]? <;> rfl
 
 theorem C13_count_is_live (ops : List Op) : count (run init ops) = (abs (run init ops)).length := by
   simp [count, abs]
